@@ -106,8 +106,8 @@ const uint8_t *g_crc_ptr;
 size_t g_crc_len;
 uint32_t g_crc_ret;
 int g_decomp_calls;                /* codec decompress calls (after the last parse)               */
-int g_dict_calls;                  /* carquet_read_dictionary_page entered (overlay @entry)       */
-int g_data_calls;                  /* carquet_read_data_page_v1 entered (overlay @entry)          */
+unsigned g_dict_calls;                  /* carquet_read_dictionary_page entered (overlay @entry)       */
+unsigned g_data_calls;                  /* carquet_read_data_page_v1 entered (overlay @entry)          */
 unsigned g_err_sets;                    /* carquet_error_set calls with a non-NULL error struct        */
 /* writer side */
 int g_wcrc_calls;
@@ -216,6 +216,56 @@ bool carquet_page_is_zero_copy_eligible(carquet_compression_t codec, carquet_enc
          type == CARQUET_PHYSICAL_FIXED_LEN_BYTE_ARRAY;
 }
  
+/* ---- level / value decoders and dictionary gathers (C08 / C15 contracts), only for the page DECODER jobs ---- */
+#ifdef PG_DECODE_STUBS
+#ifndef PG_MAXV
+#define PG_MAXV 3
+#endif
+int64_t carquet_rle_decode_levels(const uint8_t *input, size_t input_size, int bit_width, int16_t *output, int64_t max_values) {
+  (void)bit_width;
+  PG_PRE(__CPROVER_r_ok(input, input_size), "level decoder: input range readable");
+  PG_PRE(max_values >= 0 && (max_values == 0 || __CPROVER_w_ok(output, (size_t)max_values << 1)), "level decoder: output holds max_values levels");
+  PG_HAVOC(output, (size_t)max_values << 1);
+  int64_t r = nondet_i64();
+  __CPROVER_assume(r >= -1 && r <= max_values);
+  return r;
+}
+int64_t carquet_rle_decode_all(const uint8_t *input, size_t input_size, int bit_width, uint32_t *output, int64_t max_values) {
+  (void)bit_width;
+  PG_PRE(__CPROVER_r_ok(input, input_size), "index decoder: input range readable");
+  PG_PRE(max_values >= 0 && (max_values == 0 || __CPROVER_w_ok(output, (size_t)max_values << 2)), "index decoder: output holds max_values indices");
+  PG_HAVOC(output, (size_t)max_values << 2);
+  int64_t r = nondet_i64();
+  __CPROVER_assume(r >= -1 && r <= max_values);
+  return r;
+}
+int64_t carquet_decode_plain(const uint8_t *input, size_t input_size, carquet_physical_type_t type, int32_t type_length,
+                             void *output, int64_t count) {
+  PG_PRE(__CPROVER_r_ok(input, input_size), "plain decoder: input range readable");
+  PG_PRE(count >= 0, "plain decoder: non-negative count");
+  PG_PRE(count == 0 || __CPROVER_w_ok(output, PG_VALUE_SIZE(type, type_length) * (size_t)count), "plain decoder: output holds count values of the type");
+  if (count > 0) PG_HAVOC(output, PG_VALUE_SIZE(type, type_length) * (size_t)count);
+  int64_t r = nondet_i64();
+  __CPROVER_assume(r >= -1 && (r < 0 || (size_t)r <= input_size));
+  return r;
+}
+/* gathers: every index addresses an entry of the dictionary block; output holds count entries (bounded: count <= PG_MAXV) */
+#define PG_GATHER(NAME, T) \
+void NAME(const T *dict, const uint32_t *indices, int64_t count, T *output) { \
+  PG_PRE(count >= 0 && count <= PG_MAXV, "gather: count within the job's bound"); \
+  PG_PRE(count == 0 || __CPROVER_r_ok(indices, (size_t)count << 2), "gather: indices readable"); \
+  PG_PRE(count == 0 || __CPROVER_w_ok(output, (size_t)count * sizeof(T)), "gather: output holds count values"); \
+  if (0 < count) PG_PRE(__CPROVER_r_ok(dict + indices[0], sizeof(T)), "gather: index 0 addresses a dictionary entry"); \
+  if (1 < count) PG_PRE(__CPROVER_r_ok(dict + indices[1], sizeof(T)), "gather: index 1 addresses a dictionary entry"); \
+  if (2 < count) PG_PRE(__CPROVER_r_ok(dict + indices[2], sizeof(T)), "gather: index 2 addresses a dictionary entry"); \
+  if (count > 0) PG_HAVOC(output, (size_t)count * sizeof(T)); \
+}
+PG_GATHER(carquet_dispatch_gather_i32, int32_t)
+PG_GATHER(carquet_dispatch_gather_i64, int64_t)
+PG_GATHER(carquet_dispatch_gather_float, float)
+PG_GATHER(carquet_dispatch_gather_double, double)
+#endif
+
 /* ---- harness helpers: a column reader in an arbitrary state satisfying the representation ------
  * invariant of src/reader (pointers the library frees are NULL or heap blocks it allocated, level
  * buffers hold decoded_capacity entries, a VIEW points into the mapping).  Everything else,
